@@ -40,7 +40,7 @@ PROP = dict(
                "every other constructor establish it (proved).",
     technique="Verus contracts on the extracted constructors/accessors over a sequence view of the opaque Bytes (unbounded)",
     trusted=COMMON_TRUST + [
-        "alloy-primitives 0.8.15 Bytes (read from src/bytes/mod.rs; bytes 1.7.1 src/bytes.rs): Deref Bytes->bytes::Bytes->[u8] "
+        "units/prelude/bytesview.rs -- alloy-primitives 0.8.15 Bytes (read from src/bytes/mod.rs; bytes 1.7.1 src/bytes.rs): Deref Bytes->bytes::Bytes->[u8] "
         "(views raw_of/raw_view), AsRef<[u8]>, bytes::Bytes::len (== view length, <= isize::MAX), Clone (same contents), "
         "Bytes::new (empty), Bytes::from_static (the slice), From<Vec<u8>> (the vector's contents), slice(range) (requires "
         "begin <= end <= len as the crate documents its panic; result = that subrange; begin/end pinned for RangeTo<usize>), "
